@@ -33,13 +33,13 @@ pub const CHECKS: &[Check] = &[
         scenarios: &[("life", 300_000, 6_000_000), ("pool", 100_000, 2_000_000), ("teardown", 100_000, 2_000_000), ("mt-teardown", 15_000, 400_000)],
         owns: &["mem.freed-while-kernel-owns"],
         level: "exploration",
-        rule: "one case = one seeded run of a random program (3-40 steps: create/poll/drop operations of ~55 kinds, Ring::poll, kernel consume/complete with drawn outcomes, descriptor and ring drops) against the simulated kernel; distinct = distinct abstract trace hash (sequence of actor/action/op kind/outcome class); non-trivial = at least one fault fired or the kernel acted at a yield point inside a10",
+        rule: "one case = one seeded run of a random program (3-40 steps: create/poll/drop operations of ~75 kinds, Ring::poll, kernel consume/complete with drawn outcomes, descriptor and ring drops) against the simulated kernel; distinct = distinct abstract trace hash (sequence of actor/action/op kind/outcome class); non-trivial = at least one fault fired or the kernel acted at a yield point inside a10",
         assumptions: STUB_ASSUMPTIONS,
         probes: &["probe_drop_running", "probe_drop_after_first_cqe", "probe_restart_taken", "probe_ring_dropped_with_inflight"],
     },
     Check {
         id: "C02",
-        scenarios: &[("life", 250_000, 5_000_000), ("cq", 250_000, 5_000_000)],
+        scenarios: &[("life", 250_000, 5_000_000), ("cq", 250_000, 5_000_000), ("mt-life", 12_000, 400_000), ("pool-wrap", 24, 72)],
         owns: &["res."],
         level: "exploration",
         rule: "one case = one seeded run; every output of every future/iterator is compared with the results the simulated kernel scripted for that very submission (attributable values); distinct = distinct abstract trace hash; non-trivial = a fault fired or the kernel acted at a yield point",
@@ -57,10 +57,10 @@ pub const CHECKS: &[Check] = &[
     },
     Check {
         id: "C04",
-        scenarios: &[("mt-sq", 30_000, 1_000_000), ("life", 150_000, 3_000_000)],
+        scenarios: &[("mt-sq", 30_000, 1_000_000), ("life", 150_000, 3_000_000), ("build", 40_000, 800_000)],
         owns: &["sq."],
         level: "exploration",
-        rule: "one case = one seeded run of 2-4 submitter threads (baton scheduler, preemption at every yield point) on rings of 1-4 entries with counters starting at 0, 2^31-k or 2^32-k; the kernel checks every consumed entry against what was published; distinct = distinct abstract trace hash; non-trivial = a thread switch or fault happened",
+        rule: "one case = one seeded run of 2-4 submitter threads (baton scheduler, preemption at every yield point) on rings of 1-4 entries with counters starting at 0, 2^31-k or 2^32-k; the kernel checks every consumed entry against what was published, single-issuer and SQPOLL rings included, and at the end of a run everything accepted before the Ring was dropped has been consumed; distinct = distinct abstract trace hash; non-trivial = a thread switch or fault happened",
         assumptions: STUB_ASSUMPTIONS,
         probes: &["probe_sq_counter_wrapped", "probe_concurrent_submit", "probe_thread_switches"],
     },
@@ -75,7 +75,7 @@ pub const CHECKS: &[Check] = &[
     },
     Check {
         id: "C06",
-        scenarios: &[("life", 350_000, 7_000_000), ("restart", 150_000, 3_000_000), ("mt-teardown", 15_000, 400_000)],
+        scenarios: &[("life", 350_000, 7_000_000), ("restart", 150_000, 3_000_000), ("mt-teardown", 15_000, 400_000), ("mt-life", 12_000, 400_000)],
         owns: &["cancel.", "mem.double-free", "mem.leak"],
         level: "exploration",
         rule: "one case = one seeded run; at every drop the submissions made by the drop are inspected (at most one ASYNC_CANCEL aimed at that operation), the allocator detects double frees, and live a10 allocations are counted after everything was dropped; distinct = distinct abstract trace hash; non-trivial = fault fired or kernel acted at a yield point",
@@ -87,7 +87,7 @@ pub const CHECKS: &[Check] = &[
         scenarios: &[("fd", 500_000, 10_000_000)],
         owns: &["fd."],
         level: "exploration",
-        rule: "one case = one seeded history of descriptor-creating operations, drops and explicit closes (regular and direct, full queue fallback) checked against the kernel's descriptor ledger; distinct = distinct abstract trace hash; non-trivial = a fault fired or kernel acted at a yield point",
+        rule: "one case = one seeded history of descriptor-creating operations, drops and explicit closes (regular and direct, full queue fallback, close(2)/CLOSE errors after release, try_clone, signalfd conversions, pipe2 fallback) checked against the kernel's descriptor ledger and the ledger of real descriptors; distinct = distinct abstract trace hash; non-trivial = a fault fired or kernel acted at a yield point",
         assumptions: STUB_ASSUMPTIONS,
         probes: &["probe_sync_close_fallback", "probe_direct_close", "probe_fd_to_abandoned_op"],
     },
@@ -123,7 +123,7 @@ pub const CHECKS: &[Check] = &[
         scenarios: &[("mt-wake", 150_000, 3_000_000)],
         owns: &["wakeup."],
         level: "exploration",
-        rule: "one case = one seeded interleaving of a poller thread and 1-3 waker threads (baton scheduler) on default, SQPOLL and single-issuer rings; a poll that started after a completed wake() must not block until its timeout; distinct = distinct abstract trace hash; non-trivial = a thread switch happened",
+        rule: "one case = one seeded interleaving of a poller thread and 1-3 waker threads (baton scheduler) on default, SQPOLL and single-issuer rings; every wake() is owed to the first poll that is in (or later enters) its kernel wait, and that wait must not run into its timeout or block for ever (kernel wait log and call stamps from one event counter); scheduling is uniform preemption or PCT; every atomic access of a10 is a scheduling point; distinct = distinct abstract trace hash; non-trivial = a thread switch happened",
         assumptions: STUB_ASSUMPTIONS,
         probes: &["probe_wake_while_blocked", "probe_wake_before_poll", "probe_wake_after_ring_drop"],
     },
@@ -132,7 +132,7 @@ pub const CHECKS: &[Check] = &[
         scenarios: &[("teardown", 450_000, 9_000_000), ("mt-teardown", 25_000, 600_000)],
         owns: &["teardown.", "mem.leak", "mem.double-free", "mem.freed-while-kernel-owns"],
         level: "exploration",
-        rule: "one case = one seeded object graph (ring, queue clones, descriptors, operations in every state, pools, buffers) dropped in a drawn order; guard pages, mmap ledger, descriptor ledger, registrations and allocator are checked afterwards; distinct = distinct abstract trace hash; non-trivial = fault fired or kernel acted at a yield point",
+        rule: "one case = one seeded object graph (ring, queue clones, descriptors, operations in every state, pools, buffers) dropped item by item in a drawn order (each task, descriptor, buffer, the pools, the Ring, the last queue handle), a third of the runs with zero-copy notifications that outlive the Ring; guard pages, mmap ledger, descriptor ledger, registrations and allocator are checked afterwards; distinct = distinct abstract trace hash; non-trivial = fault fired or kernel acted at a yield point",
         assumptions: STUB_ASSUMPTIONS,
         probes: &["probe_ring_dropped_with_inflight", "probe_ring_dropped_first", "probe_sync_cancel_cancelled"],
     },
@@ -150,7 +150,7 @@ pub const CHECKS: &[Check] = &[
         scenarios: &[("inotify", 80_000, 2_000_000)],
         owns: &["notify."],
         level: "exploration",
-        rule: "one case = one scripted stream of inotify records batched into reads in a drawn way; yielded events are compared with the script and held events are checked against later buffer reuse; distinct = distinct abstract trace hash; non-trivial = more than one read or a held event",
+        rule: "one case = one scripted stream of inotify records batched into reads in a drawn way; watches are directories, files and hard links (re-registration of a watch descriptor); yielded events are compared with the script (paths of watched files byte for byte) and held events are checked against later buffer reuse; distinct = distinct abstract trace hash; non-trivial = more than one read or a held event",
         assumptions: STUB_ASSUMPTIONS,
         probes: &["probe_inotify_event_held", "probe_inotify_multi_read"],
     },
@@ -184,6 +184,27 @@ pub fn json_str(s: &str) -> String {
 
 fn exe() -> std::path::PathBuf {
     std::env::current_exe().expect("current exe")
+}
+
+/// The same harness built with the `simrel` profile (what users ship: no
+/// debug assertions, wrapping arithmetic).
+pub fn simrel_exe() -> std::path::PathBuf {
+    let me = exe();
+    me.parent()
+        .and_then(|p| p.parent())
+        .map_or_else(|| me.clone(), |t| t.join("simrel").join("a10sim"))
+}
+
+/// Binary that replays, shrinks and dumps tapes: the profile the violation
+/// was found with.
+static CHILD_BIN: std::sync::Mutex<Option<std::path::PathBuf>> = std::sync::Mutex::new(None);
+
+fn child_bin() -> std::path::PathBuf {
+    CHILD_BIN.lock().unwrap_or_else(|e| e.into_inner()).clone().unwrap_or_else(exe)
+}
+
+fn set_child_profile(profile: &str) {
+    *CHILD_BIN.lock().unwrap_or_else(|e| e.into_inner()) = if profile == "simrel" { Some(simrel_exe()) } else { None };
 }
 
 // ------------------------------------------------------------------- worker
@@ -269,7 +290,9 @@ struct Agg {
     samples: Vec<String>,
 }
 
-fn run_workers(bin: &std::path::Path, scenario: &str, seed: u64, total: u64, budget: Duration, agg: &mut Agg) {
+fn run_workers(bin: &std::path::Path, scenario: &str, tag: &str, seed: u64, total: u64, budget: Duration, agg: &mut Agg) {
+    let tagged = format!("{scenario}{tag}");
+    let tagged = tagged.as_str();
     let workers: u64 = std::env::var("VERIF_WORKERS")
         .ok()
         .and_then(|s| s.parse().ok())
@@ -339,11 +362,11 @@ fn run_workers(bin: &std::path::Path, scenario: &str, seed: u64, total: u64, bud
                             let idx: u64 = it.next().and_then(|s| s.parse().ok()).unwrap_or(0);
                             let class = it.next().unwrap_or("?").to_string();
                             let detail = it.next().unwrap_or("").to_string();
-                            local.violations.push((scenario.to_string(), idx, class, detail));
+                            local.violations.push((tagged.to_string(), idx, class, detail));
                         } else if let Some(rest) = line.strip_prefix("H ") {
                             let mut it = rest.splitn(2, ' ');
                             let idx: u64 = it.next().and_then(|s| s.parse().ok()).unwrap_or(0);
-                            local.harness.push((scenario.to_string(), idx, it.next().unwrap_or("").to_string()));
+                            local.harness.push((tagged.to_string(), idx, it.next().unwrap_or("").to_string()));
                         } else if let Some(rest) = line.strip_prefix("S ") {
                             let mut it = rest.splitn(2, ' ');
                             let name = it.next().unwrap_or("").to_string();
@@ -367,7 +390,7 @@ fn run_workers(bin: &std::path::Path, scenario: &str, seed: u64, total: u64, bud
                                 .and_then(|s| s.trim().parse().ok())
                                 .unwrap_or(start);
                             local.violations.push((
-                                scenario.to_string(),
+                                tagged.to_string(),
                                 idx,
                                 "hang".to_string(),
                                 "the run never ended: a10 loops or blocks forever (killed by the watchdog)".to_string(),
@@ -387,7 +410,7 @@ fn run_workers(bin: &std::path::Path, scenario: &str, seed: u64, total: u64, bud
                                 .and_then(|s| s.trim().parse().ok())
                                 .unwrap_or(start);
                             local.violations.push((
-                                scenario.to_string(),
+                                tagged.to_string(),
                                 idx,
                                 class.clone(),
                                 if class == "abort" { "the process aborted (a panic that cannot unwind, e.g. a misaligned or null pointer dereference check)".to_string() } else { "the process touched guarded memory (SIGSEGV)".to_string() },
@@ -402,7 +425,7 @@ fn run_workers(bin: &std::path::Path, scenario: &str, seed: u64, total: u64, bud
                         // Died without telling us (abort, stack overflow, ...).
                         let code = status.and_then(|s| s.code()).unwrap_or(-1);
                         local.harness.push((
-                            scenario.to_string(),
+                            tagged.to_string(),
                             start,
                             format!("worker died unexpectedly (exit {code})"),
                         ));
@@ -444,6 +467,7 @@ pub struct Replay {
     pub property: String,
     pub class: String,
     pub scenario: String,
+    pub profile: String,
     pub tape: Vec<u32>,
 }
 
@@ -475,6 +499,7 @@ pub fn read_replay(path: &str) -> Option<Replay> {
         property: json_field(&s, "property")?.to_string(),
         class: json_field(&s, "class")?.to_string(),
         scenario: json_field(&s, "scenario")?.to_string(),
+        profile: json_field(&s, "profile").unwrap_or("sim").to_string(),
         tape,
     })
 }
@@ -504,7 +529,7 @@ pub fn tape_run(scenario: &str, tape_values: Vec<u32>, log: bool) -> Vec<String>
 /// Returns what it wrote to stdout.
 fn child_output(args: &[&str], secs: u64) -> Option<String> {
     use std::io::Read;
-    let mut child = Command::new(exe())
+    let mut child = Command::new(child_bin())
         .args(args)
         .stdout(Stdio::piped())
         .stderr(Stdio::null())
@@ -733,12 +758,14 @@ pub fn check(id: &str, tier: &str, seed: u64) -> i32 {
             continue;
         }
         let total = ((total as f64) * scale) as u64;
-        run_workers(&exe(), scenario, seed, total.max(1), per, &mut agg);
-        // The thorough tier also runs the build users ship (no debug
-        // assertions, wrapping arithmetic), where a10 behaves differently.
-        let rel = std::path::PathBuf::from("/verif/harness/target/simrel/a10sim");
-        if thorough && rel.exists() && *scenario != "pool-wrap" {
-            run_workers(&rel, scenario, seed ^ 0x5eed, (total / 4).max(1), per / 3, &mut agg);
+        run_workers(&exe(), scenario, "", seed, total.max(1), per, &mut agg);
+        // Both tiers also run the build users ship (no debug assertions,
+        // wrapping arithmetic), where a10 behaves differently: a fifth (quick)
+        // or a quarter (thorough) of the runs again, with other seeds.
+        let rel = simrel_exe();
+        if rel.exists() && *scenario != "pool-wrap" {
+            let share = if thorough { 4 } else { 5 };
+            run_workers(&rel, scenario, "@simrel", seed ^ 0x5eed, (total / share).max(1), per / 3, &mut agg);
             profiles = "sim + simrel";
         }
     }
@@ -785,7 +812,11 @@ pub fn check(id: &str, tier: &str, seed: u64) -> i32 {
             break;
         }
         reported.push(v.2.clone());
-        let (scenario, idx, class, detail) = (&v.0, v.1, &v.2, &v.3);
+        let (tagged, idx, class, detail) = (&v.0, v.1, &v.2, &v.3);
+        let (scenario, profile) = tagged.split_once('@').unwrap_or((tagged.as_str(), "sim"));
+        let scenario = &scenario.to_string();
+        set_child_profile(profile);
+        let seed = if profile == "simrel" { seed ^ 0x5eed } else { seed };
         // Recover the tape of that run in a child (it may crash).
         let out = child_output(&["dump-tape", scenario, &seed.to_string(), &idx.to_string()], 20);
         let full: Vec<u32> = out
@@ -815,13 +846,14 @@ pub fn check(id: &str, tier: &str, seed: u64) -> i32 {
         let text: Vec<String> = minimised.iter().map(u32::to_string).collect();
         let events = child_output(&["tape-run", scenario, &text.join(","), "--log"], 10).unwrap_or_default();
         let ev_json: Vec<String> = events.lines().take(400).map(json_str).collect();
-        let path = format!("/verif/replays/{}-{}-{}-{}.json", chk.id, scenario, seed, idx);
+        let path = format!("/verif/replays/{}-{}-{}-{}.json", chk.id, tagged.replace('@', "-"), seed, idx);
         let body = format!(
-            "{{\n \"property\": {},\n \"class\": {},\n \"detail\": {},\n \"scenario\": {},\n \"profile\": \"sim\",\n \"verif_seed\": {seed},\n \"run_index\": {idx},\n \"tape\": [{}],\n \"minimised_from\": {},\n \"replayed_identically\": {},\n \"events\": [\n  {}\n ]\n}}\n",
+            "{{\n \"property\": {},\n \"class\": {},\n \"detail\": {},\n \"scenario\": {},\n \"profile\": {},\n \"verif_seed\": {seed},\n \"run_index\": {idx},\n \"tape\": [{}],\n \"minimised_from\": {},\n \"replayed_identically\": {},\n \"events\": [\n  {}\n ]\n}}\n",
             json_str(chk.id),
             json_str(class),
             json_str(detail),
             json_str(scenario),
+            json_str(profile),
             text.join(","),
             full.len(),
             if same { 2 } else { 0 },
